@@ -125,6 +125,26 @@ def marginal_case(case):
                         "observed": str(got), "sig": "marginal:value", "ops": k}
             if abs(sum(got.values()) - 1) > TOL:
                 return {"ok": False, "msg": "marginal is not normalised", "sig": "marginal:normalised", "ops": k}
+    # the same source built with normalisation OFF (raw counts / partial weights kept as given): each projected outcome carries the SUM of the weights projecting to it, nothing is rescaled
+    if tot != 1 and len(case["items"]) >= 2:
+        import warnings
+        with warnings.catch_warnings():
+            warnings.simplefilter("ignore")
+            raw = MeasurementOutcomeDistribution(mk_input(case), normalize=False)
+            raw_snap = list(raw.distribution_dict.items())
+            for qs in list(itertools.permutations(range(w), 1)) + list(itertools.permutations(range(w), min(2, w)))[:4]:
+                sub = raw.subdistribution(list(qs))
+                k += 1
+                exp = {}
+                for b, x in case["items"]:
+                    key = tuple(b[q] for q in qs)
+                    exp[key] = exp.get(key, F(0)) + F(x)
+                got = sub.distribution_dict
+                if set(got) != set(exp) or any(abs(got[key] - float(v)) > TOL * max(1.0, float(v)) for key, v in exp.items()):
+                    return {"ok": False, "msg": "subdistribution(%s) of a source built with normalisation off: outcomes do not carry the sums of the projecting weights" % (list(qs),),
+                            "expected": str({k2: float(v) for k2, v in exp.items()}), "observed": str(got), "sig": "marginal:unnormalised-source", "ops": k}
+            if list(raw.distribution_dict.items()) != raw_snap:
+                return {"ok": False, "msg": "subdistribution modified an unnormalised source", "sig": "marginal:source-mutated", "ops": k}
     for bad in ([0, 0], [w], [0, w + 1], [1, 0, 1][:max(2, min(3, w + 1))]):
         if len(set(bad)) == len(bad) and max(bad) < w:
             continue
